@@ -76,6 +76,7 @@ class Check(PropertyCheck):
         if rng.random() < 0.4:
             lines.append("fcomp all")          # a composite that contains the first composite (a multi-column component)
         lines.append("fsnap")
+        setup = [l for l in lines if l.startswith(("fobs", "fcomp"))]
         tr = gen.Tracker(jobs)
         n_acc = 0
         while not tr.done():
@@ -83,6 +84,14 @@ class Check(PropertyCheck):
             tr.take(j)
             n_acc += 1
             lines += [f"disp {j} {p} {m}", "fsnap"]
+        if rng.random() < 0.3:
+            # a second dispatcher with its own observers on the SAME instance object: nothing may leak through the instance
+            lines += ["redisp"] + setup + ["fsnap"]
+            tr.reset()
+            while not tr.done():
+                j, p, m = gen.gen_valid_request(rng, tr)
+                tr.take(j)
+                lines += [f"disp {j} {p} {m}", "fsnap"]
         meta = {"family": family, "filter": "none" if f is None else "+".join(f) or "empty-composite",
                 "flexible": gen.is_flexible(jobs), "zero_dur": gen.has_zero(jobs), "accepted": n_acc,
                 "observers": len(kinds), "filter_style": rng.choice(["callable", "enum", "str"])}
